@@ -45,3 +45,12 @@ check('C08',
       'by the implementation on both sides.',
       'reference mc/models/seqlang.py (self-tested on the F&O examples); error codes are not compared, only value versus error',
       'DESIGN.md section 3 C08')
+check('C16',
+      'bounded-exhaustive enumeration of function-item programs and call histories against an interpreter with real closures',
+      'All programs of the families closures-in-for/let (every call order and multiplicity up to the bound), curried functions, storage in '
+      'sequences/arrays, named references, partial applications with ? in every position of 8 functions, for-each/filter/fold-left/fold-right/'
+      'for-each-pair/apply over all sequences up to length 3 x function alphabets, nested HOF/closure combinations, fn:sort over all sequences '
+      'up to length 4 (permutation, ordered, stable) and Python-level call histories on one function item (incl. a call made while another is '
+      'evaluated) are run on the real evaluator (3.0, 3.1) and compared with the reference interpreter.',
+      'reference mc/models/seqlang.py; error codes are not compared (only value versus error)',
+      'DESIGN.md section 3 C16')
